@@ -144,10 +144,10 @@ fn get_integer_exact<const N: usize, const POS: usize, const FIXED: usize>() {
         }
     }
 }
-n_harness! { 14, fn c07_int_exact_small_p1() { get_integer_exact::<12, 1, 0>() } }
+n_harness! { 14, fn c07_int_exact_small_p01() { get_integer_exact::<12, 1, 0>() } }
 n_harness! { 32, fn c07_int_exact_small_p19() { get_integer_exact::<30, 19, 0>() } }
 n_harness! { 37, fn c07_int_exact_small_p24() { get_integer_exact::<35, 24, 0>() } }
-n_harness! { 26, fn c07_int_exact_limit_p1() { get_integer_exact::<24, 1, 16>() } }
+n_harness! { 26, fn c07_int_exact_limit_p01() { get_integer_exact::<24, 1, 16>() } }
 n_harness! { 43, fn c07_int_exact_limit_p18() { get_integer_exact::<41, 18, 16>() } }
 n_harness! { 44, fn c07_int_exact_limit_p19() { get_integer_exact::<42, 19, 16>() } }
 n_harness! { 49, fn c07_int_exact_limit_p24() { get_integer_exact::<47, 24, 16>() } }
